@@ -56,7 +56,7 @@ def mk(fns, jobs, ext, cache, maxjobs, started, restart_stats=(), restart_hosts=
         'LOAD_JOBS': lambda path: (log.append(('load', path)), [dict(j, touched=[]) for j in ext])[1],
         'WRITE_JOBS': lambda js, path: log.append(('write', path, js, [(j['id'], j['status'], j['host']) for j in js])),
         'GenerateHost': lambda o=None: ME, 'GenerateTime': lambda o=None: 'T',
-        'isAvailable': lambda j: j['status'] == 'AVAILABLE', 'getStatusStr': lambda j: j['status'], 'getHost': lambda j: j['host'] or '', 'hasHost': lambda j: j['host'] is not None,
+        'isAvailable': lambda j: j['status'] == 'AVAILABLE', 'getStatusStr': lambda j: j['status'], 'getStatus': lambda j: j['status'], 'getHost': lambda j: j['host'] or '', 'hasHost': lambda j: j['host'] is not None,
         'getId': lambda j: j['id'], 'Reset': lambda j: j['touched'].append('reset'), 'setStatus': lambda j, s_: (j.__setitem__('status', s_), j['touched'].append('status'))[1],
         'setHost': lambda j, h: (j.__setitem__('host', h), j['touched'].append('host'))[1], 'setTime': lambda j, t: j['touched'].append('time'),
         'UpdateFrom': lambda j, o: (j.__setitem__('status', o['status']), j.__setitem__('host', o['host']), j['touched'].append('updatefrom'), log.append(('merge', j['id'])))[2],
@@ -225,33 +225,40 @@ def job_update(seed):
     fns = fns_all()
     F = 'UPDATE_JOBS'
     fails, nrun = {}, 0
-    for nj in (0, 1, 2, 3):
+    for nj in (0, 1, 2):
         for st in itertools.product(range(len(STATES)), repeat=nj):
-            for mode in ('same', 'short', 'ids'):
-                to = [mkjob(i, 'AVAILABLE', None) for i in range(nj)]
-                frm = [mkjob(i, *STATES[s]) for i, s in enumerate(st)]
-                if mode == 'short':
-                    frm = frm[:-1] if frm else [mkjob(0, 'AVAILABLE', None)]
-                if mode == 'ids' and frm:
-                    frm[-1] = dict(frm[-1], id=99)
-                if mode == 'ids' and not frm:
-                    continue
-                ex, this, log = mk(fns, to, frm, 1, 1, 0)
-                try:
-                    ex.call_fn(fns['UPDATE_JOBS'][0], [frm, to, ME], None)
-                    thrown = False
-                except Thrown:
-                    thrown = True
-                nrun += 1
-                if (mode != 'same') != thrown:
-                    fails.setdefault('sync-error', []).append({'mode': mode, 'thrown': thrown})
-                if mode == 'same':
-                    for t, f in zip(to, frm):
-                        foreign = f['host'] is not None and f['host'] != ME
-                        if foreign != ('updatefrom' in t['touched']) or (not foreign and (t['status'], t['host']) != ('AVAILABLE', None)):
-                            fails.setdefault('merge-rule', []).append({'file_job': (f['status'], f['host']), 'touched': t['touched']})
-    clause = {'sync-error': 'different sizes or ids are reported as an error (the in-memory list is out of sync)', 'merge-rule': 'job k is overwritten from the file iff the file\'s job k has a host different from this process; untouched otherwise'}
-    obs = [Ob('C10.update/%s' % k, F, v, 'RVC', 'symbolic execution of the AST over enumerated job lists', core.BOUNDED if k not in fails else core.REFUTED, 0, '%d runs' % nrun, bound='<= 3 jobs',
+            for st_int in itertools.product(range(len(STATES)), repeat=nj):      # the in-memory copy may be in any state too (same status, other owner ...)
+                for mode in ('same', 'short', 'ids'):
+                    if mode != 'same' and st_int != tuple([0] * nj):
+                        continue
+                    to = [mkjob(i, *STATES[s]) for i, s in enumerate(st_int)]
+                    to0 = [dict(j) for j in to]
+                    frm = [mkjob(i, *STATES[s]) for i, s in enumerate(st)]
+                    if mode == 'short':
+                        frm = frm[:-1] if frm else [mkjob(0, 'AVAILABLE', None)]
+                    if mode == 'ids' and frm:
+                        frm[-1] = dict(frm[-1], id=99)
+                    if mode == 'ids' and not frm:
+                        continue
+                    ex, this, log = mk(fns, to, frm, 1, 1, 0)
+                    try:
+                        ex.call_fn(fns['UPDATE_JOBS'][0], [frm, to, ME], None)
+                        thrown = False
+                    except Thrown:
+                        thrown = True
+                    nrun += 1
+                    if (mode != 'same') != thrown:
+                        fails.setdefault('sync-error', []).append({'mode': mode, 'thrown': thrown})
+                    if mode == 'same':
+                        for t, t0, f in zip(to, to0, frm):
+                            foreign = f['host'] is not None and f['host'] != ME
+                            if foreign and (t['status'], t['host']) != (f['status'], f['host']):
+                                fails.setdefault('merge-rule', []).append({'file_job': (f['status'], f['host']), 'memory_job_before': (t0['status'], t0['host']), 'memory_job_after': (t['status'], t['host'])})
+                            if not foreign and (t['status'], t['host']) != (t0['status'], t0['host']):
+                                fails.setdefault('merge-rule', []).append({'file_job': (f['status'], f['host']), 'memory_job_before': (t0['status'], t0['host']), 'memory_job_after': (t['status'], t['host'])})
+    clause = {'sync-error': 'different sizes or ids are reported as an error (the in-memory list is out of sync)',
+              'merge-rule': 'after the merge job k carries the file\'s record whenever the file\'s job k belongs to another host (results reported by another process are never lost), and is untouched otherwise'}
+    obs = [Ob('C10.update/%s' % k, F, v, 'RVC', 'symbolic execution of the AST over enumerated job lists', core.BOUNDED if k not in fails else core.REFUTED, 0, '%d runs' % nrun, bound='<= 2 jobs, every state pair',
               witness=fails.get(k, [None])[0]) for k, v in clause.items()]
     mf = [{'name': 'UPDATE_JOBS', 'file': 'xtp/src/libxtp/job.cc', 'ast_nodes': rvc.node_count(fns['UPDATE_JOBS'][0])}]
     for o in obs:
